@@ -61,3 +61,61 @@ func AllEntryPoints(set Settings, v Val) *Program {
 	}
 	return P(set, nil, Ev(ops...))
 }
+
+// Isolate returns the program reduced to event j and the derivation steps on the path
+// from the root to the node it logs through (including UpdateContext steps applied to
+// nodes on that path); sibling derivations and all other events are dropped. Indices are
+// renumbered. Used as a metamorphic reference: what the same derivation path emits alone.
+func Isolate(p *Program, j int) *Program {
+	keep := map[int]bool{}
+	// resolve aliasing of update steps: node identity
+	ident := func(i int) int {
+		for i >= 0 && p.Steps[i].Kind == "update" {
+			i = p.ParentOf(i)
+		}
+		return i
+	}
+	onPath := map[int]bool{}
+	for n := ident(p.NodeOf(j)); n >= 0; n = ident(p.ParentOf(n)) {
+		onPath[n] = true
+	}
+	for i := range p.Steps {
+		if onPath[ident(i)] {
+			keep[i] = true
+		}
+	}
+	q := &Program{Set: p.Set}
+	renum := map[int]int{-1: -1}
+	// steps keep their relative order of execution
+	// an UpdateContext on a path node that happens after its on-path child was derived cannot
+	// concern the event (the child took its copy / slice header before): it is other activity
+	frozen := map[int]bool{}
+	for _, a := range p.Acts() {
+		if a.K == "step" && keep[a.I] {
+			if p.Steps[a.I].Kind == "update" && frozen[ident(a.I)] {
+				continue
+			}
+			if p.Steps[a.I].Kind != "update" {
+				frozen[ident(p.ParentOf(a.I))] = true
+			}
+			st := p.Steps[a.I]
+			par := renum[p.ParentOf(a.I)]
+			st.From = &par
+			renum[a.I] = len(q.Steps)
+			q.Steps = append(q.Steps, st)
+		}
+		if (a.K == "event" || a.K == "open") && a.I == j {
+			ev := p.Events[j]
+			nd := renum[p.NodeOf(j)]
+			// updates applied to the node after the event was opened must not be included
+			ev.Node = &nd
+			q.Events = []EventSpec{ev}
+			for i := range q.Steps {
+				q.Order = append(q.Order, Act{"step", i})
+			}
+			q.Order = append(q.Order, Act{"event", 0})
+			return q
+		}
+	}
+	return q
+}
